@@ -51,11 +51,12 @@ def select_values(case):
     lay = IL.Layout(label=case["layout"], **c01.LAYOUTS[case["layout"]]).setup()
     thr = core.fresh_real("thr")
     xlo = core.fresh_real("xlo")
-    sel = {"density": lambda d: d >= thr}
+    units0, _ = G.units_library(["dx", "x", "position_*"] + list(lay.hydro_vars))
+    sel = {"density": lambda d: d >= osy.Array(values=thr, unit=units0["density"].units)}
     if case["kind"] == "both":
-        sel["position_x"] = lambda x: x >= xlo
+        sel["position_x"] = lambda x: x >= osy.Array(values=xlo, unit=units0["position_x"].units)
     try:
-        ld, meta, units, lib, out = IL.run_load(lay, select={"mesh": sel})
+        ld, meta, units, lib, out = IL.run_load(lay, select={"mesh": sel}, units=units0)
     finally:
         lay.fs.uninstall()
 
@@ -126,6 +127,12 @@ def _h3(real):
         f = z3.Function("HKEY", z3.IntSort(), z3.IntSort(), z3.IntSort(), z3.IntSort(), z3.IntSort())
         t = f(core.term(SV.lift(x)), core.term(SV.lift(y)), core.term(SV.lift(z)), z3.IntVal(bit_length))
         core.cur().add(z3.And(t >= 0, t < 8 ** bit_length))
+        k = len(HCALLS)
+        if FREE[0] is not None and k != FREE[0] and BK[0] is not None and len(BK[0]) > 2:
+            # the loops treat the search cubes independently: one cube is left arbitrary, the others are
+            # placed inside the key interval of cpu 1 (keeps the number of paths small)
+            dkey = (2 ** (FREE[1] + 1) // (2 ** bit_length)) ** 3
+            core.cur().add(core.bterm((SV(t, "i") + 1) * dkey <= SV.lift(BK[0][1])))
         HCALLS.append((x, y, z, bit_length, SV(t, "i")))
         return SV(t, "i")
 
@@ -133,6 +140,7 @@ def _h3(real):
 
 
 BK = [None]
+FREE = [None, 0]
 
 
 @summary("_read_bound_key.abstract", HIL + ":_read_bound_key")
@@ -144,7 +152,8 @@ def _rbk(real):
 
 
 @unit("C04", "_get_cpu_list", targets=[HIL + ":_get_cpu_list"], uses=["_hilbert3d.abstract", "_read_bound_key.abstract"],
-      cases=[{"label": "lmax=%d,ncpu=%d" % (lm, nc), "lmax": lm, "ncpu": nc} for lm, nc in ((1, 2), (2, 2), (3, 1), (3, 2))],
+      cases=[{"label": "lmax=%d,ncpu=%d,free_cube=%s" % (lm, nc, fc), "lmax": lm, "ncpu": nc, "free": fc}
+             for lm, nc, fc in ((1, 2, None), (3, 1, None), (2, 2, 0), (3, 2, 0), (3, 2, 5), (3, 3, 7))],
       replay=NIO.replay_selective, max_paths=3000)
 def get_cpu_list(case):
     h = M(HIL)
@@ -163,6 +172,7 @@ def get_cpu_list(case):
     for a, b in zip(bk, bk[1:]):
         core.assume(SV.lift(a) <= SV.lift(b))
     BK[0] = bk
+    FREE[0], FREE[1] = case.get("free"), levelmax
     cl = h._get_cpu_list(bounding_box=box, lmax=lmax, levelmax=levelmax, infofile="info", ncpu=ncpu, ndim=3)
     # which cube level was chosen: read it off the abstract curve calls (bit_length) or 0 when none was needed
     bl = HCALLS[0][3] if HCALLS else 0
@@ -221,9 +231,8 @@ def bbox(case):
     h = M(HIL)
     levelmin, levelmax = case["levelmin"], case["levelmax"]
     nfin = 2 ** levelmax
-    ul = spint.sym_unit("ulen")
-    scal = spint.Quantity(core.fresh_real("unit_l"), ul)
-    core.assume(scal.magnitude > 0)
+    ul = osy.units("cm")
+    scal = spint.Quantity(2.0, ul)  # the lattice logic does not depend on the unit factor
     boxlen = 1.0
     meta = {"ordering type": "hilbert", "boxlen": boxlen, "levelmax": levelmax, "levelmin": levelmin, "lmax": levelmax, "ncpu": 2, "ndim": 3}
     ends = sorted({k / (2.0 * nfin) for k in range(0, 2 * nfin + 1)})
